@@ -74,6 +74,17 @@ pub fn materialize(dir: &Path, p: &Project) {
     }
 }
 
+/// write the project's files over an existing directory (nothing is removed): the state between two runs
+pub fn overwrite(dir: &Path, p: &Project) {
+    for (rel, text) in &p.files {
+        let path = dir.join(rel);
+        if let Some(parent) = path.parent() {
+            std::fs::create_dir_all(parent).unwrap_or_else(|e| crate::report::machinery(&format!("mkdir {parent:?}: {e}")));
+        }
+        std::fs::write(&path, text).unwrap_or_else(|e| crate::report::machinery(&format!("write {path:?}: {e}")));
+    }
+}
+
 pub fn snapshot(dir: &Path) -> Tree {
     fn walk(root: &Path, d: &Path, out: &mut Tree) {
         let Ok(rd) = std::fs::read_dir(d) else { return };
